@@ -531,7 +531,10 @@ Valid(S, D) == \A r \in RuleSet : Viol(r, S, D) = {}
 \*    possible types are not defined;
 \*  - two anonymous operations: whether "" is an operation name;
 \*  - arguments of an UNKNOWN directive on a field: the edition's reference implementation types
-\*    them by the enclosing field's arguments of the same name.
+\*    them by the enclosing field's arguments of the same name;
+\*  - a variable of type [Zzz] / Zzz! with Zzz unknown: whether a wrapper around nothing is a type;
+\*  - a fragment spread in an operation whose root type the schema does not define (a
+\*    subscription on a schema without subscriptions): there is no parent type to intersect with.
 UnspecC(S, P, C) ==
   LET sites  == C.sites
       dsites == C.dsites
@@ -550,7 +553,12 @@ UnspecC(S, P, C) ==
                                          IN KnownT(S, on) /\ ~CompositeT(S, on)
       anon2 == Cardinality({ i \in 1..Len(P.ops) : P.ops[i].name = "" }) > 1
       unkDirArgs == \E d \in dsites : ~d.known /\ d.args # <<>> /\ d.loc = "FIELD"
-  IN (IF dupFr THEN {"NoFragmentCycles", "OverlappingFieldsCanBeMerged", "PossibleFragmentSpreads",
+      wrapUnk == \E i \in 1..Len(P.ops) : \E j \in 1..Len(P.ops[i].vdefs) :
+                    ~KnownT(S, P.ops[i].vdefs[j].type.n) /\ P.ops[i].vdefs[j].type.w # <<>>
+      noRoot == \E i \in 1..Len(P.ops) : OpRoot(S, P.ops[i]) = "" /\ DeepSpreads(P.ops[i].sel) # {}
+  IN (IF wrapUnk THEN {"VariablesAreInputTypes", "VariablesInAllowedPosition"} ELSE {}) \cup
+     (IF noRoot THEN {"PossibleFragmentSpreads"} ELSE {}) \cup
+(IF dupFr THEN {"NoFragmentCycles", "OverlappingFieldsCanBeMerged", "PossibleFragmentSpreads",
                      "NoUndefinedVariables", "NoUnusedVariables", "VariablesInAllowedPosition"} ELSE {})
      \cup (IF dupObjArg THEN {"ArgumentsOfCorrectType"} ELSE {})
      \cup (IF dupObjDef THEN {"DefaultValuesOfCorrectType"} ELSE {})
